@@ -27,7 +27,8 @@ MODELS = 'emg3d/models.py'
 
 
 def run(ctx):
-    from . import c11
+    from . import c11, c12
+    c12.mode_switch(ctx, ctx.repo.mod('emg3d/simulations.py'), 'C19.L2.mode')
     c11.rule_P2(ctx, only='_compute_1d', rid='C19.L2.order')
     ctx.explanation = (
         'Structural clauses of the layered path are read off the AST: '
